@@ -28,6 +28,17 @@ theorem dtMatch_conf {v e : DT} (h : dtMatch v e = true) : dtConf v e := by
   · exact Or.inr ⟨h1, h2⟩
   · exact Or.inl (by rw [h])
 
+/-- The ordered evaluation computes "shape fits and dtype matches". -/
+theorem checkTensor_eq (e : DT) (s : Shape) (dt : DT) (sh : List Nat) :
+    checkTensor e s dt sh = (shapeLe sh s && dtMatch dt e) := by
+  unfold checkTensor dtMatch
+  cases shapeLe sh s <;> cases dt <;> cases e <;> rfl
+
+theorem checkTensorLoose_eq (e : DT) (s : Shape) (dt : DT) (sh : List Nat) :
+    checkTensorLoose e s dt sh = (shapeLe sh s && dtMatchLoose dt e) := by
+  unfold checkTensorLoose dtMatchLoose
+  cases shapeLe sh s <;> cases dt <;> cases e <;> rfl
+
 /-- Conformance does not see the dtype normalisation of `PropValue.__post_init__`. -/
 theorem conforms_normalise (t : Ty) (p : Payload) : conforms t p.normalise ↔ conforms t p := by
   cases p with
@@ -45,7 +56,7 @@ theorem conforms_normalise (t : Ty) (p : Payload) : conforms t p.normalise ↔ c
 /-- **`check` is sound** (fixed behaviour): whatever passes conforms, at every nesting level. -/
 theorem checkRec_sound : ∀ (t : Ty) (p : Payload), checkRec t p = true → conforms t p
   | .tensor e s, .arr dt sh pid, h => by
-    simp only [checkRec, Bool.and_eq_true] at h
+    simp only [checkRec, checkTensor_eq, Bool.and_eq_true] at h
     exact ⟨dtMatch_conf h.2, shapeLe_conf h.1⟩
   | .tensor _ _, .list _, h => by simp [checkRec] at h
   | .tensor _ _, .some _, h => by simp [checkRec] at h
@@ -71,7 +82,7 @@ theorem checkShallow_sound_tensor (e : DT) (s : Shape) (p : Payload) (he : e ≠
     (h : checkShallow (.tensor e s) p = true) : conforms (.tensor e s) p := by
   cases p with
   | arr dt sh pid =>
-    simp only [checkShallow, Bool.and_eq_true] at h
+    simp only [checkShallow, checkTensorLoose_eq, Bool.and_eq_true] at h
     refine ⟨?_, shapeLe_conf h.1⟩
     have h2 := h.2
     simp only [dtMatchLoose, Bool.or_eq_true, Bool.and_eq_true, beq_iff_eq] at h2
